@@ -51,6 +51,14 @@ EDGE_TEXTS = [
     "0.5x + 0.5y", "0.25a + 0.25b + 3", "(3 + 0.5x) + 0.5y", "0.5 + 0.5y", "0.5x + 0.5", "0.1x + 0.1y^2", "0.5x^2 + 0.5y^3", "0.5x + (0.5y + z)",
     # constant powers outside the real domain / at its edges (numpy answers nan or inf with a warning)
     "-8^0.5 + x", "-8^(1 / 3)", "7y + -3y + -8^0.5", "-2^0.5 * x", "-1^2.5", "0^-1 + x", "0^-0.5", "(2 - 10)^0.5", "-4^0.5 * -4^0.5",
+    # unlike variables with a common fractional coefficient AND equal explicit exponents
+    "0.5x^2 + 0.5y^2", "z + (0.25x^3 + 0.25y^3)", "0.5x^2 + 0.5y^2 + 0.5z^2", "0.1x^-1 + 0.1y^-1",
+    # a power of a power (even inner exponent, fractional outer one: sqrt of a square is |x|, not x)
+    "(x^2)^0.5 = 3", "1 = (t^2)^-0.5 * 4", "(y^4)^0.25 + 1 = 3", "(x^2)^0.5 + x", "(x^2)^3", "4 + (y^3)^-2", "(x^2)^1.5 = 27", "((x^2)^0.5)^2 = 9", "(x^-2)^-0.5 = 2",
+    # coefficients that differ in the last place (what folding 0.1 + 0.2 next to 0.3 leaves behind)
+    "0.3x + 0.30000000000000004x", "x + 0.9999999999999999x", "3.3 + 3.3000000000000003", "0.3x + 0.1x + 0.2x", "0.30000000000000004x + 0.3x", "0.7x + (0.1 + 0.6)x",
+    # a zero coefficient that only folding reveals (and whose folded type is numpy's)
+    "(0.5 - 0.5)^2 * x = 0", "0.1^400 * x = 0", "(2 - 2)^0.5 * x = 0", "0^2.5 * y = 0", "(1.5 - 1.5) * x = 0", "0.0^2 * x + 1 = 1",
     # negative bases that fold through numpy, then a subtraction of the folded constant
     "7 - -2.5^3", "x - -2^-1 * y", "4 - -1.5^2 * x", "y - -0.5^3", "(6 + 9)^30", "(8 + 4)^40 + x", "(4 + 16) * 10^19 * 10^19", "(9 + 9)^20 * x",
     # the same letter in both cases is two different variables
